@@ -14,8 +14,10 @@ import yaml
 VERIF = os.path.dirname(os.path.dirname(os.path.abspath(__file__)))
 sys.path.insert(0, os.path.join(VERIF, "mc"))
 sys.path.insert(0, os.path.join(VERIF, "tools"))
+sys.path.insert(0, os.path.join(VERIF, "model"))
 import e2  # noqa: E402
 import build  # noqa: E402
+import kernelspec_extra as kx  # noqa: E402
 
 _spec_cache = {}
 
@@ -35,14 +37,22 @@ def load():
             df = k.get("definition") or ""
             has = "def " in df
             k["class"] = "C" if not has else ("A" if k.get("automatic-tests") else "B")
+            k["options"] = {}
+            if not has and k["name"] in kx.DEFINITIONS:
+                # class H: the YAML carries no executable definition, the harness supplies one (kernelspec_extra.py)
+                k["definition"] = df = kx.DEFINITIONS[k["name"]]
+                k["class"] = "H"
+                k["options"] = kx.OPTIONS.get(k["name"], {})
             k["relax"] = relax_flags(df)
             for s in k["specializations"]:
                 for a in s["args"]:
                     a["base"], a["depth"], a["const"] = e2.parse_type(a["type"])
                     a["role"] = a.get("role") or "default"
-                    a["kind"] = kind_of(a)
+                    a["kind"] = k["options"].get("kinds", {}).get(a["name"]) or kind_of(a)
                 for a in s["args"]:
                     a["extent_of"] = extent_scalar(a, s) if a["depth"] == 1 and a["dir"] == "in" else None
+                    if a["name"] in k["options"].get("extent", {}):
+                        a["extent_of"] = k["options"]["extent"][a["name"]]
         _spec_cache[p] = kernels
     return _spec_cache[p]
 
@@ -171,6 +181,7 @@ def scalar_domain(a, tier, shrink=0):
 
 
 HUGE64 = (1 << 32) + 1     # beyond every extent and not representable in 32 bits
+TWO53 = 1 << 53            # 2**53 and 2**53 + 1 are the smallest neighbours that are equal as doubles
 
 
 def _ints(base, vals, relaxed=()):
@@ -185,6 +196,8 @@ def _ints(base, vals, relaxed=()):
             v = hi - 1
         elif v == "min":
             v = lo
+        elif v == "min+1":
+            v = lo + 1
         if lo <= v <= hi and (v, False) not in out:
             out.append((v, False))
     for v in relaxed:
@@ -195,7 +208,7 @@ def _ints(base, vals, relaxed=()):
     return out
 
 
-def static_domain(a, tier, relax=()):
+def static_domain(a, tier, relax=(), opts=None):
     """Domain of one element that does not depend on other elements.  Index-like kinds take `huge` (the largest value
     of a narrow type, 2**32+1 for 64-bit types: arithmetic on INT64_MAX overflows in the compiled kernel and in the C
     reading of the definition alike); data kinds take the true extremes of the C type."""
@@ -205,6 +218,8 @@ def static_domain(a, tier, relax=()):
         return [(False, False), (True, False)]
     if kind == "reals":
         d = [0.0, 1.0, -1.5, 2.5]
+        if not t and opts and opts.get("nan"):
+            d = [0.0, 1.0, -1.5, float("nan")]
         if t:
             d += [float("inf"), float("-inf"), float("nan")]
         return [(v, False) for v in d]
@@ -223,9 +238,12 @@ def static_domain(a, tier, relax=()):
         return _ints(base, [0, 1, 2, 3, "huge"])
     if kind == "mask":
         return _ints(base, [0, 1, -1, 2, "max", "min"]) if signed else _ints(base, [0, 1, 2, 128, "max"])
+    # data: the true extremes; 64-bit data additionally the neighbours of the signed extremes and the pair 2**53,
+    # 2**53 + 1 (distinct integers that collide when converted to double); _ints drops what the type cannot hold
+    wide = [TWO53, TWO53 + 1] if base in ("int64_t", "uint64_t") else []
     if signed:
-        return _ints(base, [0, 1, -1, 2, 3, "max", "min"])
-    return _ints(base, [0, 1, 2, 3, "max", "max-1"] + ([128] if base == "uint8_t" else []))
+        return _ints(base, [0, 1, -1, 2, 3, "max", "min"] + (["max-1", "min+1"] if base == "int64_t" else []) + wide)
+    return _ints(base, [0, 1, 2, 3, "max", "max-1"] + ([128] if base == "uint8_t" else []) + wide)
 
 
 def partner(name, kind):
